@@ -643,7 +643,7 @@ func (e dohEngine) Exchange(ctx context.Context, q []byte) (*[]byte, error) {
 }
 func (e dohEngine) Close() error { return nil }
 
-func TestPropOwnReply(t *testing.T) { hx.Check(t, 1500, genCase, runCase) }
+func TestPropOwnReply(t *testing.T) { hx.Check(t, 4000, genCase, runCase) }
 
 // ---------------------------------------------------------------- wire-ID wrap-around
 
